@@ -24,7 +24,14 @@
    functions (getter / setter of a variable) and integer #define constants. *)
 From Coq Require Import ZArith List Bool Arith Lia.
 Import ListNotations.
+From Cffi Require Export C37.Steps C37.Gen.
 Open Scope Z_scope.
+
+(* the decisive facts of the close paths, read from the REGENERATED source text (C37/Gen.v) *)
+Definition inline_sets_null : bool := has CallCloseLib inline_close && has SetHandleNull backend_close_lib.
+Definition inline_clears : bool := has ClearDict inline_close.
+Definition ool_sets_null : bool := has SetHandleNull ool_close.
+Definition ool_clears : bool := has ClearDict ool_close.
 
 Inductive mode := Inline | Ool.
 Inductive exn := ValueError | FFIError | AttributeError | OverflowError | NoSuchLib.
@@ -192,9 +199,13 @@ Definition step_lib (d : desc) (m : list Z) (L : lib) (o : op) : list Z * lib * 
          In-line clears the dict again on every close (api.py:934), out-of-line only when the
          handle was not NULL (cdlopen.c:66) *)
       match lmode L with
-      | Inline => (m, {| lmode := Inline; lopen := false; ldict := []; lprops := lprops L; laddr := laddr L |}, ONone)
+      | Inline => (m, {| lmode := Inline; lopen := if inline_sets_null then false else lopen L;
+                         ldict := if inline_clears then [] else ldict L;
+                         lprops := lprops L; laddr := laddr L |}, ONone)
       | Ool => if lopen L
-               then (m, {| lmode := Ool; lopen := false; ldict := []; lprops := lprops L; laddr := laddr L |}, ONone)
+               then (m, {| lmode := Ool; lopen := if ool_sets_null then false else true;
+                           ldict := if ool_clears then [] else ldict L;
+                           lprops := lprops L; laddr := laddr L |}, ONone)
                else (m, L, ONone)
       end
   end.
